@@ -27,4 +27,4 @@ For each change k in {{1,2}} deliver under /tmp/seed_out/{pid}_k/ :
   * patch.diff — `git diff` of the source change only (must apply with `git apply` to a clean checkout of the worktree's HEAD);
   * demo.rs — a self-contained integration test file (it will be copied to `tests/seed_demo.rs`; it may only use the crate's public API and the dev-dependencies) whose test(s) FAIL with the change and PASS without it, checking the property's statement (not an incidental value);
   * notes.md — which clause of the property breaks, what exactly an input needs in order to expose it, and why the existing tests do not notice.
-Verify all of this yourself: with the change applied run the unit tests (161 pass) and the demo (`cp demo.rs tests/seed_demo.rs && cargo test --offline --test seed_demo` → fails); then `git stash` / revert the source change and run the demo again (→ passes). Leave the worktree clean (no source modifications, no tests/seed_demo.rs) when you finish. Final message: for each change a three-line summary (files touched, clause broken, trigger) and the exact verification commands you ran with their outcomes.""")
+Verify all of this yourself: with the change applied run the unit tests (161 pass) and the demo (`cp demo.rs tests/seed_demo.rs && cargo test --offline --test seed_demo` → fails); then revert the source change with `git apply -R patch.diff` or `git checkout -- src` (NEVER `git stash`: the stash is shared with other people's worktrees) and run the demo again (→ passes). Leave the worktree clean (no source modifications, no tests/seed_demo.rs) when you finish. Final message: for each change a three-line summary (files touched, clause broken, trigger) and the exact verification commands you ran with their outcomes.""")
